@@ -1,6 +1,7 @@
 """C14 -- circle and sphere parameters (X1, X2, U1). Narrow."""
 from ..rules import hyp_rules as H
 from ..rules import shape_rules as S
+from ..rules import sibling_rules as SI
 from ..rules.common import u1
 
 ENTRIES = [(H.HYP, q) for q in (
@@ -14,6 +15,7 @@ ENTRIES = [(H.HYP, q) for q in (
 def run(ctx):
     ctx.do(H.rule_x1x2)
     ctx.do(S.rule_ax1, [S.CORE, H.HYP])
+    ctx.do(SI.rule_x3)
     ctx.do(u1, ENTRIES, min_functions=15)
     ctx.r.assume("that centre/radius/angles describe the true geodesic, "
                  "orthogonality to the boundary and horosphere tangency are "
